@@ -123,6 +123,25 @@ class Env:
             return "CCache"
         if self.outs and isinstance(n, ast.Name) and n.id == self.outs[1]:
             return "CStderr"
+        # equivalent spellings: bool(x), x != "", x == "", len(x) > 0 / != 0, x is True ...
+        if isinstance(n, ast.Call) and isinstance(n.func, ast.Name) and n.func.id == "bool" and len(n.args) == 1 and not n.keywords:
+            return self.cond(n.args[0])
+        if isinstance(n, ast.Compare) and len(n.ops) == 1:
+            l, op, rr = n.left, n.ops[0], n.comparators[0]
+            if self.outs and isinstance(l, ast.Name) and l.id == self.outs[1] and isinstance(rr, ast.Constant) and rr.value == "":
+                if isinstance(op, ast.NotEq):
+                    return "CStderr"
+                if isinstance(op, ast.Eq):
+                    return "(CNot CStderr)"
+            if (self.outs and isinstance(l, ast.Call) and _src(l) == f"len({self.outs[1]})" and isinstance(rr, ast.Constant)
+                    and rr.value == 0 and isinstance(op, (ast.Gt, ast.NotEq))):
+                return "CStderr"
+            if isinstance(rr, ast.Constant) and isinstance(rr.value, bool) and isinstance(op, (ast.Is, ast.Eq, ast.IsNot, ast.NotEq)):
+                inner = self.cond(l)
+                if "CStderr" in inner:
+                    _fail(self.where, n, "a text compared with a bool")
+                pos = rr.value == isinstance(op, (ast.Is, ast.Eq))
+                return inner if pos else f"(CNot {inner})"
         _fail(self.where, n, "unsupported guard")
 
     def is_verbose_test(self, n):
